@@ -81,6 +81,15 @@ PANICKY_STD = (
 YASNA_PRINTABLE = set(b" =") | set(range(ord("'"), ord(":") + 1)) - {ord("*")} | set(range(ord("A"), ord("Z") + 1)) | set(range(ord("a"), ord("z") + 1))
 
 
+def full_range_index(crate, body_name, term):
+    """the indexing expression(s) on the call's source line are all `x[..]` (RangeFull)"""
+    b = crate.bodies.get(body_name) or {}
+    if "hir" not in b and "{closure" in body_name:
+        b = crate.bodies.get(body_name.split("::{closure")[0]) or {}
+    nodes = [n for n in common.hir_walk(b.get("hir") or {}) if n.get("k") == "Index" and n.get("sp") == term.get("sp")]
+    return bool(nodes) and all((n["idx"].get("ty") or "").endswith("std::ops::RangeFull") for n in nodes)
+
+
 def std_position_ok(crate, body_name, callee, term):
     """A position-taking std call that cannot panic by construction:
        chunks* / windows / step_by with a non-zero literal size; Vec::insert(0, _); a position that is the literal 0 for
@@ -138,6 +147,8 @@ def sites(crate):
             if t["k"] == "Call":
                 c0 = facts.norm_path(t.get("callee") or "")
                 if any(p in c0 for p in PANICKY) and not c0.endswith(NOT_PANICKY):
+                    if c0.endswith(("Index::index", "IndexMut::index_mut")) and full_range_index(crate, name, t):
+                        continue      # `x[..]` cannot be out of range
                     out.append((owner, "call:" + "::".join(c0.split("::")[-2:]), t, name))
                 elif c0 in PANICKY_STD and not std_position_ok(crate, name, c0, t):
                     out.append((owner, "call:" + "::".join(c0.split("::")[-2:]), t, name))
